@@ -87,7 +87,10 @@ def build(shape: tuple, args: Sequence[Any] = ()) -> Any:
 
 
 def decode(node: Any) -> Any:
-    """Independent structural decoding of an AST into plain tuples (does not use dataclass __eq__)."""
+    """Independent structural decoding of an AST into plain tuples (does not use dataclass __eq__).
+
+    Every tuple starts with a concrete tag, so that oracles can dispatch on d[0] without ever
+    comparing a symbolic string with a tag."""
     if node is None:
         return None
     if isinstance(node, list):
@@ -98,11 +101,11 @@ def decode(node: Any) -> Any:
         return node
     t = type(node).__name__
     if isinstance(node, ast.Identifier):
-        return (t, node.name, tuple(node.namespace))
+        return (t, node.name, ("ns",) + tuple(node.namespace))
     if isinstance(node, ast.Attribute):
         return (t, decode(node.owner), node.attr)
     if isinstance(node, ast.List):
-        return (t, tuple(decode(n) for n in node.val))
+        return (t, ("items",) + tuple(decode(n) for n in node.val))
     if isinstance(node, ast.Null):
         return (t,)
     if isinstance(node, ast._Literal):
@@ -114,7 +117,7 @@ def decode(node: Any) -> Any:
     if isinstance(node, ast.UnaryOp):
         return (t, type(node.op).__name__, decode(node.operand))
     if isinstance(node, ast.Call):
-        return (t, decode(node.func), tuple(decode(a) for a in node.args))
+        return (t, decode(node.func), ("args",) + tuple(decode(a) for a in node.args))
     if isinstance(node, ast.NamedParam):
         return (t, decode(node.name), decode(node.param))
     if isinstance(node, ast.Lambda):
@@ -181,11 +184,20 @@ def renumber(shape: Any) -> Tuple[Any, List[tuple]]:
     return s, holes(s)
 
 
-def signature(hs: List[tuple], str_bound: str = "len({v}) == 1") -> Tuple[str, str, List[str]]:
-    """Python parameter list and PEP316 precondition for a list of holes."""
+def signature(hs: List[tuple], str_bound: str = "len({v}) == 1", pool: int = 0,
+              pool_name: str = "POOL") -> Tuple[str, str, List[str]]:
+    """Python parameter list and PEP316 precondition for a list of holes.
+
+    With pool=n every string hole becomes a symbolic *index* into a pool of n concrete names
+    (used where the code under test hashes the name: a symbolic str never closes there)."""
     params, pre, names = [], [], []
     for h in hs:
         v = f"x{h[1]}"
+        if h[0] == "$" and pool:
+            params.append(f"{v}: int")
+            pre.append(f"0 <= {v} < {pool}")
+            names.append(f"{pool_name}[{v}]")
+            continue
         names.append(v)
         if h[0] == "$":
             params.append(f"{v}: str")
